@@ -85,7 +85,8 @@ def dsl_defn(d, rnd=None, vary=False):
             out.append('%s: %s' % (k, 'true' if en[1] else 'false'))
         elif k == 'states':
             tc = ',' if (rnd is not None and rnd.random() < 0.3 and en[1]) else ''
-            out.append('states: [' + ', '.join(dsl_sitem(x, True, rnd) for x in en[1]) + tc + ']')
+            ssep = ' ' if (rnd is not None and rnd.random() < 0.15) else ', '      # the commas of the states list are optional
+            out.append('states: [' + ssep.join(dsl_sitem(x, True, rnd) for x in en[1]) + (tc if ssep == ', ' else '') + ']')
         elif k == 'events':
             evs = []
             for (n, es) in en[1]:
